@@ -98,6 +98,17 @@ pub fn programs(tier: Tier) -> ProgramSet {
             devs.extend(crate::devs::rich_generic_devs(false));
             devs.extend(crate::devs::syntax_devs(false, false, true, false).into_iter().filter(|d| d.label.contains("doc(hidden)")));
             devs.extend(crate::devs::context_devs());
+            devs.extend(crate::devs::rare_shape_devs(n, true));
+            for i in 0..n {
+                devs.push(dev(format!("v{}.default (tuple1 String)", i), &[&format!("kind{}", i), "default"], move |s| {
+                    if s.variants[i].disabled || s.variants[i].disc.is_some() || !s.generics.is_empty() {
+                        return false;
+                    }
+                    s.variants[i].default = true;
+                    s.variants[i].kind = Kind::Tuple(vec![FieldTy::Str]);
+                    true
+                }));
+            }
             let dis: Vec<String> = (0..n).filter(|i| mask & (1 << i) != 0).map(|i| i.to_string()).collect();
             let label = format!("B{} disabled={{{}}}", n, dis.join(","));
             let (specs, _) = enumerate(&base, &label, &devs, k, &|s: &EnumSpec| {
